@@ -192,6 +192,21 @@ func (e *Env) reachesStatic(from *ssa.Function, pred func(*ssa.Function) bool) b
 					return true
 				}
 			}
+			// method values (`n.setupLog` put into a table and called through it): the
+			// synthetic bound-method wrapper's callee counts as called
+			for _, b := range g.Blocks {
+				for _, in := range b.Instrs {
+					if mc, ok := in.(*ssa.MakeClosure); ok {
+						if w, ok := mc.Fn.(*ssa.Function); ok && w.Synthetic != "" {
+							for _, ci := range ir.CallsIn(w, func(c *ssa.CallCommon) bool { return c.StaticCallee() != nil }) {
+								if visit(ci.Common().StaticCallee()) {
+									return true
+								}
+							}
+						}
+					}
+				}
+			}
 		}
 		return false
 	}
